@@ -443,6 +443,19 @@ def run_c04(tier, seed, replay=None):
         for pm in (perms if len(perms) <= 8 else rnd.sample(perms, 8)):
             cases.append(mk_case([], ["q", "r"], list(pm), perm_group=grp, mode="bag"))
         grp += 1
+    # distinctfd with elements bound by == in any order (larger value first included), the last element getting its domain (or
+    # its value) before or after: whether the duplicate is seen must not depend on the order
+    for _ in range(n // 3):
+        a, b = sorted(rnd.sample(range(1, 7), 2), reverse=True)
+        c = rnd.choice([a, a, b, 6])
+        last = rnd.choice([["dom", "t", ["v", c, 6]], ["eq", "t", c], ["dom", "t", ["i", 1, 6]]])
+        pool = [["rel", "distinctfd", ["list", "q", "r", "t"]], ["eq", "q", a], ["eq", "r", b], last]
+        if rnd.random() < 0.5:
+            pool.append(["dom", ["list", "q", "r"], ["i", 1, 6]])
+        perms = list(itertools.permutations(pool))
+        for pm in rnd.sample(perms, 10):
+            cases.append(mk_case([], ["q", "r", "t"], list(pm), perm_group=grp, mode="bag"))
+        grp += 1
     return pcheck.run_check("C04", tier, seed, cases, "bag", oracle_c04, cone=CONE_D, replay=replay,
         rule="groups of permutations (all for <= 3 goals, sampled beyond) of top-level conjunctions, with the goals of nested conjunctions, "
              "fresh blocks and conde clauses shuffled as well, over ==, !=, conde, fresh; and all posting orders of small finite-domain "
